@@ -11,6 +11,7 @@ import VotelibProofs.Props.C01
 import VotelibProofs.Lemmas.MonoScorers
 import VotelibProofs.Lemmas.MonoAdditive
 import VotelibProofs.Lemmas.MonoBucklin
+import VotelibProofs.Lemmas.MonoBucklinCoef
 import VotelibProofs.Lemmas.MonoMinimax
 import VotelibProofs.Lemmas.MonoBridge
 import VotelibProofs.Lemmas.MonoRules
@@ -410,6 +411,88 @@ theorem bucklin_default_monotone_bullet (p : RProfile) (w : Cand) (hs : Strict p
   rw [decouple_of_strict _ (strict_bullet w hs)]
   exact bucklin_monotone_bullet p w hpos hp h
 
+/-! ### the Bucklin family: `PreferenceAddition(coefficients, …)` with any coefficient function that is never negative
+    and never increases (`CoefOK`: Bucklin `[1]`, Oklahoma `1, 1/2, 1/3, …` as a callable or as a list, every
+    non-increasing list — beyond its end the last entry is used, `coefOfList`) -/
+
+/-- non-increasing, non-negative coefficient lists give admissible coefficient functions -/
+theorem coef_list_ok (l : List Rat) (h : l.Pairwise (fun a b => b ≤ a)) (hnn : ∀ x ∈ l, 0 ≤ x) : CoefOK (coefOfList l) :=
+  coefOfList_ok l h hnn
+
+/-- **PreferenceAddition, single ballot improvement**, for every admissible coefficient function (shared ranks counted
+    in full, `split_equal_rankings=False`). -/
+theorem preference_addition_monotone_lift (coef : Nat → Rat) (hc : CoefOK coef) (p : RProfile) (w : Cand) (i : Nat) (b : Ballot)
+    (hpos : ∀ bw ∈ p, 0 ≤ bw.2) (hb : b ∈ dkeys p) (hnd : (ballotCands b).Nodup) (hok : liftOK w i b = true)
+    (h : evalPA coef p = .ok [Slot.cand w]) :
+    evalPA coef (replaceUnit p b (lift w i b)) = .ok [Slot.cand w] := by
+  rw [evalPA_eq coef p (ne_nil_of_mem_dkeys hb)] at h
+  rw [evalPA_eq coef _ (show replaceUnit p b (lift w i b) ≠ [] from addTo_ne_nil _ _ _)]
+  simp only [Except.ok.injEq] at h ⊢
+  have hq : sumValues (replaceUnit p b (lift w i b)) = sumValues p := by
+    rw [sumValues_eq_wsum, sumValues_eq_wsum, wsum_replaceUnit _ _ _ _ hb]; ring
+  rw [hq]
+  have hq0 : 0 ≤ sumValues p / 2 := by have := sumValues_nonneg p hpos; linarith
+  have hT : ∀ j k, toFun (cumC coef (replaceUnit p b (lift w i b)) j) k
+      = toFun (cumC coef p j) k - rankScore (coefLe coef j) 0 b k + rankScore (coefLe coef j) 0 (lift w i b) k := by
+    intro j k; rw [toFun_cumC, toFun_cumC, wsum_replaceUnit _ _ _ _ hb]
+  apply loopA_mono (cumC coef p) _ _ _ w (nodup_cumC coef p) (nodup_cumC coef _) hq0 hq0 ?_ ?_ ?_ (maxLen p) _ 0 ?_ h
+  · intro j y hy hlt
+    have := (lift_cumC hc j w i b hnd hok y hy).1
+    rw [hT] at hlt; linarith
+  · intro j hlt
+    obtain ⟨y, hy⟩ : ∃ y : Cand, y ≠ w := ⟨w + 1, Nat.succ_ne_self w⟩
+    have := (lift_cumC hc j w i b hnd hok y hy).2
+    rw [hT]; linarith
+  · intro j y hy _ hlt
+    have h1 := (lift_cumC hc j w i b hnd hok y hy).1
+    have h2 := (lift_cumC hc j w i b hnd hok y hy).2
+    rw [hT, hT]; linarith
+  · apply maxLen_le
+    intro x hx
+    rcases mem_dkeys_replaceUnit_of_mem (b := b) (b' := lift w i b) hx with rfl | hx'
+    · exact le_trans (length_le_lift hnd hok) (le_maxLen (new_mem_dkeys_replaceUnit p x _))
+    · exact le_maxLen hx'
+
+/-- **PreferenceAddition, new bullet ballot**: the quota rises by one half, `w`'s totals by the first coefficient, which
+    is at least one half (it is 1 in every documented system). -/
+theorem preference_addition_monotone_bullet (coef : Nat → Rat) (h0 : 1 / 2 ≤ coef 0) (p : RProfile) (w : Cand)
+    (hpos : ∀ bw ∈ p, 0 ≤ bw.2) (hp : p ≠ []) (h : evalPA coef p = .ok [Slot.cand w]) :
+    evalPA coef (addTo p [RankItem.one w] 1) = .ok [Slot.cand w] := by
+  rw [evalPA_eq coef p hp] at h
+  rw [evalPA_eq coef _ (addTo_ne_nil _ _ _)]
+  simp only [Except.ok.injEq] at h ⊢
+  have hq : sumValues (addTo p [RankItem.one w] 1) = sumValues p + 1 := by
+    rw [sumValues_eq_wsum, sumValues_eq_wsum, wsum_addTo]; ring
+  rw [hq]
+  have hs0 := sumValues_nonneg p hpos
+  have hT : ∀ j k, toFun (cumC coef (addTo p [RankItem.one w] 1) j) k
+      = toFun (cumC coef p j) k + (if w = k then coef 0 else 0) := by
+    intro j k
+    rw [toFun_cumC, toFun_cumC, wsum_addTo]
+    simp only [rankScore, RankItem.cands, coefLe, Nat.zero_le, ↓reduceIte, one_mul, add_zero, cnt_cons, cnt_nil]
+    split <;> ring
+  apply loopA_mono (cumC coef p) _ _ _ w (nodup_cumC coef p) (nodup_cumC coef _) (by linarith) (by linarith) ?_ ?_ ?_
+    (maxLen p) _ 0 ?_ h
+  · intro j y hy hlt
+    rw [hT, if_neg (fun h => hy h.symm)] at hlt; linarith
+  · intro j hlt
+    rw [hT, if_pos rfl]; linarith
+  · intro j y hy _ hlt
+    rw [hT, hT, if_neg (fun h => hy h.symm), if_pos rfl]; linarith
+  · apply maxLen_le
+    intro x hx
+    exact le_maxLen ((mem_dkeys_addTo p _ 1 x).mpr (Or.inl hx))
+
+/-- **PreferenceAddition as shipped (shared ranks split), single ballot improvement**, on profiles without shared ranks. -/
+theorem preference_addition_default_monotone_lift (coef : Nat → Rat) (hc : CoefOK coef) (p : RProfile) (w : Cand) (i : Nat)
+    (b : Ballot) (hs : Strict p) (hpos : ∀ bw ∈ p, 0 ≤ bw.2) (hb : b ∈ dkeys p) (hnd : (ballotCands b).Nodup)
+    (hok : liftOK w i b = true) (h : evalPASplit coef p = .ok [Slot.cand w]) :
+    evalPASplit coef (replaceUnit p b (lift w i b)) = .ok [Slot.cand w] := by
+  unfold evalPASplit at h ⊢
+  rw [decouple_of_strict p hs] at h
+  rw [decouple_of_strict _ (strict_replaceUnit hs hb)]
+  exact preference_addition_monotone_lift coef hc p w i b hpos hb hnd hok h
+
 /-! ### Copeland and minimax, on the level of the pairwise matrix
 
   `Raised v v' w`: compared with `v`, in `v'` only the entries `d(w, ·)` rise and `d(·, w)` fall (what moving `w`
@@ -651,6 +734,13 @@ example : evalPositional .modifiedBorda (replaceUnit exProfile [.one 1, .shared 
     = .ok [Slot.cand 0] := by decide +kernel
 -- the truncated ballot (2, 1): ranking the unranked winner
 example : liftOK 0 1 [.one 2, .one 1] = true ∧ lift 0 1 [.one 2, .one 1] = [.one 2, .one 0, .one 1] := by decide +kernel
+
+/-- Oklahoma coefficients as a list shorter than the ballots: beyond its end the last entry 1/3 is used -/
+example : CoefOK (coefOfList [1, 1 / 2, 1 / 3]) ∧ coefOfList [1, 1 / 2, 1 / 3] 4 = 1 / 3 := by
+  refine ⟨coef_list_ok _ (by decide +kernel) (by decide +kernel), by decide +kernel⟩
+example : evalPA (coefOfList [1, 1 / 2, 1 / 3])
+    [([.one 0, .one 1, .one 2], 4), ([.one 3, .one 2, .one 1, .one 4, .one 0], 4), ([.one 2, .one 4, .one 3, .one 0], 1)]
+    = .ok [Slot.cand 0] := by decide +kernel
 
 /-- Bucklin: decided in the second round -/
 def exBucklin : RProfile := [([.one 1, .one 0], 2), ([.one 2, .one 0], 2), ([.one 0, .one 1], 1)]
